@@ -114,7 +114,8 @@ def build_doc(progs, forms, mediabox=(0, 0, 612, 792), split=None):
 
 
 # ------------------------------------------------------------------------------------------------ traced interpreter
-def _make_traced():
+def _make_traced(snapfn=None):
+    snapfn = snapfn or snapshot
     ns = {}
     body = {}
     for name in dir(PDFPageInterpreter):
@@ -133,7 +134,7 @@ def _make_traced():
                "        if T._depth == 0 and T._formdepth == 0:\n"
                "            T._snaps.append((%r, _snap(self)))\n") % (name, (", " + args) if args else "", name, (", " + args) if args else "", name)
         ns["_orig_" + name] = orig
-        ns["_snap"] = snapshot
+        ns["_snap"] = snapfn
         exec(src, ns)
         body[name] = ns[name]
     body["_depth"] = 0
@@ -316,3 +317,69 @@ def snaps_equal(real, model):
             if not close(r[k], v):
                 return False
     return True
+
+
+# ------------------------------------------------------------------------------------------------ digest traces (binding B)
+OPNAME = {"T_a": "T*", "_q": "'", "_w": '"', "f_a": "f*", "B_a": "B*", "b_a": "b*", "W_a": "W*"}
+
+
+def digest_state(it):
+    ts, gs = it.textstate, it.graphicstate
+    return {"ctm": tuple(it.ctm),
+            "ts": (id(ts.font), ts.fontsize, ts.charspace, ts.wordspace, ts.scaling, ts.leading, ts.render, ts.rise,
+                   tuple(ts.matrix), tuple(ts.linematrix)),
+            "gs": (gs.linewidth, repr(gs.linecap), repr(gs.linejoin), repr(gs.miterlimit), repr(gs.dash), repr(gs.intent),
+                   repr(gs.flatness), repr(gs.scolor), repr(gs.ncolor)),
+            "npath": len(it.curpath), "depth": len(it.gstack), "sync": tuple(it.device.ctm) == tuple(it.ctm)}
+
+
+_Digest = None
+
+
+def record_operator_traces(data, label, maxpages=6, maxops=4000, password=""):
+    """-> list of trace records (one per page) with opaque ids for the state components"""
+    global _Digest
+    if _Digest is None:
+        _Digest = _make_traced(digest_state)
+    T = _Digest
+    doc = PDFDocument(PDFParser(io.BytesIO(data)), password=password)
+    rm = PDFResourceManager()
+    dev = PDFPageAggregator(rm, laparams=None)
+    out = []
+    for pno, page in enumerate(PDFPage.create_pages(doc)):
+        if pno >= maxpages:
+            break
+        it = T(rm, dev)
+        T._snaps = []
+        T._depth = 0
+        init_holder = {}
+        orig_init = it.init_state
+
+        def init_state(ctm, _o=orig_init, _it=it, _h=init_holder):
+            _o(ctm)
+            _h.setdefault("st", digest_state(_it))
+        it.init_state = init_state
+        try:
+            it.process_page(page)
+            dev.get_result()
+        except Exception:  # noqa: BLE001  (damaged sample pages are C13's business)
+            continue
+        if "st" not in init_holder or not T._snaps:
+            continue
+        ids = {"ctm": {}, "ts": {}, "gs": {}}
+
+        def enc(d):
+            r = {}
+            for k in ("ctm", "ts", "gs"):
+                r[k] = ids[k].setdefault(d[k], len(ids[k]))
+            r["npath"] = d["npath"]
+            r["depth"] = d["depth"]
+            r["sync"] = d["sync"]
+            return r
+        ev = []
+        init = enc(init_holder["st"])
+        for name, d in T._snaps[:maxops]:
+            op = name[3:]
+            ev.append({"op": OPNAME.get(op, op), "after": enc(d)})
+        out.append({"label": "%s p%d" % (label, pno + 1), "init": init, "events": ev})
+    return out
